@@ -148,3 +148,22 @@ Theorem C01_copy_is_walk_reachable : forall root sb r dst recursive overwrite ss
     end.
 Proof. exact copy_is_walk_sorted. Qed.
 Print Assumptions C01_copy_is_walk_reachable.
+
+(** Entity headers, continued: the media type.  mime.TypeByExtension ([mime_tab], the
+    registry restricted to the extensions in play) and http.DetectContentType
+    ([sniffed]) are inputs computed by the harness with the real functions. *)
+Theorem C01_get_head_content_type : forall root sb r s c m,
+  (meth r = "GET"%string \/ meth r = "HEAD"%string) ->
+  local_segs (rpath r) = Ok s -> geto sb (root ++ s) = Some (File c m) ->
+  r_ctype (snd (serve root sb r)) = spec_content_type root r (root ++ s).
+Proof. exact get_head_content_type. Qed.
+Print Assumptions C01_get_head_content_type.
+
+Theorem C01_content_type_cases : forall root sb r s c m,
+  (meth r = "GET"%string \/ meth r = "HEAD"%string) ->
+  local_segs (rpath r) = Ok s -> geto sb (root ++ s) = Some (File c m) ->
+  let t := registered_type r (external_path s) in
+  (t <> ""%string -> r_ctype (snd (serve root sb r)) = t) /\
+  (t = ""%string -> registered_type r (rpath r) = ""%string -> r_ctype (snd (serve root sb r)) = sniffed r).
+Proof. exact content_type_cases. Qed.
+Print Assumptions C01_content_type_cases.
